@@ -1,6 +1,8 @@
 package checks
 
 import (
+	"strings"
+
 	. "verifmc/model"
 )
 
@@ -20,7 +22,7 @@ func leaves(thorough bool) []*Node {
 		NFloat(KFloat32, false, 1.5), NFloat(KFloat64, false, 1), NFloat(KFloat64, false, 1.5), NFloat(KFloat64, true, 1.5), NFloat(KFloat32, false, 1.0000001192092896),
 		NFloat(KFloat32, false, float64(float32(0.1))), NFloat(KFloat64, false, 0.1),
 		NSlice(TAny, NFloat(KFloat32, false, float64(float32(0.1))), NFloat(KFloat64, false, 0.1)), NSlice(TAny, NFloat(KFloat64, false, 0.3), NFloat(KFloat32, false, float64(float32(0.1)))),
-		str(""), str("a"), str("1"), str("true"), NStr(true, "a"), str("\u00e9"), str("a\xffb"),
+		str(""), str("a"), str("1"), str("true"), NStr(true, "a"), str("/a~1b"), str("/a/b"), str("\u00e9"), str("a\xffb"),
 		NJSON("1"), NJSON("1.5"), NJSON("1e3"), NJSON("zz"),
 		// integer-SPELLED numbers beyond int64 (the documented fallback to float64 must still apply), and the last one inside
 		NJSON("9223372036854775808"), NJSON("-9223372036854775809"), NJSON("9223372036854775807"),
@@ -38,6 +40,8 @@ func leaves(thorough bool) []*Node {
 		NFloat(KFloat32, true, 1.5), NBool(true, false), NStr(true, "1"),
 		// size boundaries: collections long enough to cross the usual growth steps of append (8, 16, 32)
 		bigList(9, 8), bigList(17, 0), bigList(33, 32), bigMap(9),
+		// map keys containing the pointer separator / escape character (an element path is a list of PARTS, keys go in verbatim)
+		NMap(TStr, TAny, str("t/c"), one, str("t~u"), one), NMap(TStr, TAny, str("a~1b"), NInt(KInt, false, 2), str("~0"), one),
 		// []interface{} with RUNS of one kind that contain the zero value (a literal that cannot be read in that kind must
 		// be skipped element by element, never compared against a left-over zero)
 		NSlice(TAny, NInt(KInt, false, 7), NInt(KInt, false, 0)), NSlice(TAny, NFloat(KFloat64, false, 1.5), NFloat(KFloat64, false, 0)), NSlice(TAny, NBool(false, true), NBool(false, false)),
@@ -223,7 +227,9 @@ var lits = []string{"", "a", "b", "1", "0", "-1", "1.5", "true", "T", "0x1", "1_
 	// strings are compared byte for byte: no case folding, no Unicode normalisation (data has "a" and the precomposed e-acute)
 	"A", "\u00c9", "e\u0301", "\u00e9",
 	// bytes that are not UTF-8 (spelled by an escape) and the replacement character: as pattern, as needle, as value
-	"\xff", "\ufffd"}
+	"\xff", "\ufffd",
+	// quoted values that look like JSON pointers WITH escapes: a value is its spelled text, never the decoded pointer
+	"/a~1b", "/a~0b"}
 
 var selsQuick = [][]string{{"a"}, {"b"}, {"a", "a"}, {"a", "b"}, {"a", "c"}, {"a", "0"}, {"a", "1"}, {"a", "2"}, {"a", "true"}, {"a", "A"}, {"a", "H"}, {"a", "u"},
 	{"a", "a", "a"}, {"a", "0", "a"}, {"a", "a", "0"}, {"a", "0", "0"}, {"a", "a", "c"}, {"a", ""}, {"a", "x"}, {"a", "01"}}
@@ -259,6 +265,9 @@ func matchExprs(sels [][]string, ls []string) []any {
 			}
 			for _, l := range ls {
 				out = append(out, &Match{Sel: s, Op: op, Lit: l})
+				if strings.HasPrefix(l, "/") && !strings.ContainsAny(l, "\"\\") {
+					out = append(out, &Match{Sel: s, Op: op, Lit: l, Style: StyleQuoted})
+				}
 			}
 		}
 	}
